@@ -1,0 +1,104 @@
+//go:build verif
+
+// Verification hooks for /verif property C05 (placement): drive the OFFERS
+// handler and makeTaskForMesosResources in-process, with a recording stand-in
+// for the Mesos master. Add-only; compiled only with -tags verif.
+
+package task
+
+import (
+	"context"
+	"sync"
+	"time"
+
+	"github.com/AliceO2Group/Control/common/utils/uid"
+	"github.com/AliceO2Group/Control/core/task/constraint"
+	"github.com/AliceO2Group/Control/core/task/schedutil"
+	"github.com/AliceO2Group/Control/core/task/taskclass"
+	mesos "github.com/mesos/mesos-go/api/v1/lib"
+	"github.com/mesos/mesos-go/api/v1/lib/scheduler"
+	"github.com/mesos/mesos-go/api/v1/lib/scheduler/calls"
+)
+
+// VerifScheduler is a Manager + schedulerState pair that never talks to Mesos.
+type VerifScheduler struct {
+	Manager *Manager
+	state   *schedulerState
+	mu      sync.Mutex
+	Calls   []*scheduler.Call // every call the handler sent, in arrival order
+}
+
+func VerifNewScheduler(classes map[string]*taskclass.Class) (*VerifScheduler, error) {
+	executorInfo, err := schedutil.PrepareExecutorInfo("/opt/o2control-executor", "", nil, time.Second)
+	if err != nil {
+		return nil, err
+	}
+	vs := &VerifScheduler{}
+	m := &Manager{classes: taskclass.NewClasses(), roster: newRoster()}
+	for k, c := range classes {
+		m.classes.UpdateClass(k, c)
+	}
+	ch := make(chan *ResourceOffersDeploymentRequest, 1)
+	st := &schedulerState{
+		taskman:       m,
+		tasksToDeploy: ch,
+		executor:      executorInfo,
+		metricsAPI:    newMetricsAPI(),
+		cli: calls.CallerFunc(func(_ context.Context, c *scheduler.Call) (mesos.Response, error) {
+			vs.mu.Lock()
+			vs.Calls = append(vs.Calls, c)
+			vs.mu.Unlock()
+			return nil, nil
+		}),
+	}
+	m.schedulerState = st
+	m.tasksToDeploy = ch
+	vs.Manager, vs.state = m, st
+	return vs, nil
+}
+
+// VerifRoundOutcome mirrors ResourceOffersOutcome with exported fields.
+type VerifRoundOutcome struct {
+	Received     bool
+	Deployed     DeploymentMap
+	Undeployed   Descriptors
+	Undeployable Descriptors
+}
+
+// OffersRound queues one deployment request (if there are descriptors) and
+// runs the OFFERS handler once on the given offers.
+func (vs *VerifScheduler) OffersRound(descriptors Descriptors, offers []mesos.Offer) (out VerifRoundOutcome, err error) {
+	outcomeCh := make(chan ResourceOffersOutcome, 1)
+	if descriptors != nil {
+		vs.state.tasksToDeploy <- &ResourceOffersDeploymentRequest{tasksToDeploy: descriptors, envId: uid.New(), outcomeCh: outcomeCh}
+	}
+	ev := &scheduler.Event{Type: scheduler.Event_OFFERS, Offers: &scheduler.Event_Offers{Offers: offers}}
+	err = vs.state.resourceOffers(nil)(context.Background(), ev)
+	select {
+	case o := <-outcomeCh:
+		out = VerifRoundOutcome{Received: true, Deployed: o.deployed, Undeployed: o.undeployed, Undeployable: o.undeployable}
+	default:
+	}
+	return
+}
+
+// DescriptorConstraints is BuildDescriptorConstraints.
+func (vs *VerifScheduler) DescriptorConstraints(ds Descriptors) map[*Descriptor]constraint.Constraints {
+	return vs.Manager.BuildDescriptorConstraints(ds)
+}
+
+// MakeTask calls makeTaskForMesosResources synchronously (a panic reaches the
+// caller). toDecline reports whether the offer is still in the decline set.
+func (vs *VerifScheduler) MakeTask(offer *mesos.Offer, d *Descriptor, remaining mesos.Resources) (t *Task, ti *mesos.TaskInfo, toDecline bool, err error) {
+	envId := uid.New()
+	var wants *Wants
+	wants, err = vs.Manager.GetWantsForDescriptor(d, envId)
+	if err != nil {
+		return
+	}
+	decl := map[mesos.OfferID]struct{}{offer.ID: {}}
+	t, ti = makeTaskForMesosResources(vs.state, offer, d, wants, vs.Manager.GetLimitsForDescriptor(d, envId),
+		remaining, map[string]struct{}{}, mesos.ExecutorID{Value: "verif-executor"}, envId, "", decl)
+	_, toDecline = decl[offer.ID]
+	return
+}
